@@ -134,7 +134,7 @@ func c04Replay(i int, raw json.RawMessage) Result {
 		}
 		c04Log = nil
 		var b bytes.Buffer
-		err = safeExecute(t, &b, nil, nil)
+		err = safeExecute(t, &b, nil, struct{ Seven int }{7})
 		if err != nil {
 			sig["kind"] = "error"
 			return Result{Sig: sig, Key: key, Observed: err.Error(), Detail: fmt.Sprintf("%s failed: %v (spec value %+v)", src, err, v.V)}
